@@ -12,7 +12,12 @@ def ia_atoms(rng, g):
     """predicates over no variable / one variable / both, with values that hit 0 exactly"""
     k = rng.random()
     cmpop = rng.choice(g.cmps)
-    if k < 0.1:
+    if k < 0.06:
+        # a comparison over the value of a Boolean sub-formula: its variables are those of the sub-formula
+        a, b = rng.choice(g.vars), rng.choice(g.vars)
+        inner = bi(rng.choice(["xor", "iff", "and", "or", "implies"]), pred("ge", var(a), const(0)), pred("ge", var(b), const(1)))
+        return pred(cmpop, inner, const(rng.choice([0, 1])))
+    if k < 0.12:
         return pred(cmpop, const(rng.choice([1, 2])), const(rng.choice([1, 2])))
     if k < 0.55:
         return pred(cmpop, var(rng.choice(g.vars)), const(rng.choice([0, 1, 2])))
